@@ -20,6 +20,7 @@ def main():
     if "--tier" in a: tier = a[a.index("--tier") + 1]
     extra = a[a.index("--cargo-args") + 1].split() if "--cargo-args" in a else []
     rustflags = a[a.index("--rustflags") + 1] if "--rustflags" in a else None
+    extra_env = dict(kv.split("=", 1) for kv in a[a.index("--env") + 1].split(",")) if "--env" in a else {}
     demo_dir = a[a.index("--demo-dir") + 1] if "--demo-dir" in a else "fast-tlsh/tests"
     demo_pkg = a[a.index("--demo-pkg") + 1] if "--demo-pkg" in a else "fast-tlsh"
     wt = "/tmp/ev/" + sid
@@ -28,7 +29,7 @@ def main():
     rc, out = sh(["git", "-C", "/repo", "worktree", "add", "-q", wt, "HEAD"], "/")
     if rc: print(out); return 2
     env = dict(os.environ, CARGO_TARGET_DIR="/tmp/ev/target", CARGO_NET_OFFLINE="true")
-    meta = {"id": sid, "source": src, "features": feats, "cargo_args": extra, "rustflags": rustflags}
+    meta = {"id": sid, "source": src, "features": feats, "cargo_args": extra, "rustflags": rustflags, "env": extra_env}
     try:
         patch = os.path.join(src, "patch.diff")
         rc, out = sh(["git", "apply", "--check", patch], wt)
@@ -52,7 +53,7 @@ def main():
             ok = True
             for d in demos:
                 cmd = ["cargo", "test", "-p", demo_pkg, "--offline", "--test", d] + (["--features", feats] if feats else []) + extra
-                rc, out = sh(cmd, wt, dict(env, RUSTFLAGS=rustflags) if rustflags else env)
+                rc, out = sh(cmd, wt, dict(dict(env, **extra_env), RUSTFLAGS=rustflags) if rustflags else dict(env, **extra_env))
                 outs.append((d, rc, re.findall(r"test result: .*", out)[:2]))
                 ok = ok and rc == 0
             for f in glob.glob(os.path.join(src, "demo", "*.sh")):
